@@ -3,6 +3,7 @@ From Coq Require Import List NArith ZArith Bool.
 From NV Require Import Lib.Res Gen.Fat Fat.Spec.
 From NV Require Import FatTable.Model FatTable.ProofsBase FatTable.ProofsSet32 FatTable.Proofs.
 From NV Require Import FatRead.Model FatRead.ProofsBase FatRead.ProofsGeom FatRead.ProofsRead FatRead.ProofsTime FatRead.Proofs.
+From NV Require FatDir.Model FatDir.ProofsBase FatDir.ProofsSpec.
 Import ListNotations.
 Open Scope N_scope.
 
@@ -55,6 +56,12 @@ Theorem C03_timestamp_spec :
   forall date time cs : N, decode_timestamp_fields date time cs = (1980 + (date / 2 ^ 9) mod 2 ^ 7, (date / 2 ^ 5) mod 2 ^ 4, date mod 2 ^ 5, (time / 2 ^ 11) mod 2 ^ 5, (time / 2 ^ 5) mod 2 ^ 6, 2 * (time mod 2 ^ 5) + cs * 10 / 1000, (cs * 10) mod 1000 * 1000).
 Proof. exact FatRead.ProofsTime.timestamp_spec. Qed.
 Print Assumptions C03_timestamp_spec.
+
+(* the directory decoder of the code (_group_entries / _split_entries / _join_lfn_entries) = the specification decoder on every directory region whose long-name runs are valid or absent: same names, aliases, raw entries, offsets, no orphans *)
+Theorem C03_directory_decode_spec :
+  forall recs : list Model.rec, ProofsClean.wf_recs recs -> ProofsSpec.clean_dir recs = true -> let sp := decode_dir recs 0 None 0 in Model.split_all (Model.groups recs) = Ok (map ProofsSpec.triple_of (fst sp)) /\ map ProofsSpec.place_g (Model.groups recs) = map ProofsSpec.place_of (fst sp) /\ snd sp = 0 /\ Model.listing {| Model.d_recs := recs; Model.d_cap := None |} = Ok (map d_name (fst sp)).
+Proof. exact FatDir.ProofsSpec.decode_agrees_with_spec. Qed.
+Print Assumptions C03_directory_decode_spec.
 
 
 (* constants and layouts regenerated from fat.py / fs.py on every run *)
